@@ -9,6 +9,8 @@ CONSTANTS
   WaitLeader = FALSE
   QueueSize = 0
   SpecialCids = {}
+  Journal = FALSE
+  DumpFile = FALSE
   Raisers = {}
   InitConnected = TRUE
   Membership = FALSE
